@@ -24,12 +24,15 @@ ALL = lambda o: True  # noqa: E731
 # property -> [(source module, function, extra args, pick, why)]
 MIRRORS = {
     "C01": [
+        ("c18", "r4_precedence", (), ALL, "the error rate and minimum overlap an adapter is searched with are its own, not leaked from another specification"),
         ("c08", "r1_coordinates", (), ALL, "matches reported through the adapter index carry coordinates inside the read"),
         ("c08", "r4_eligibility", (), ALL, "an indexed adapter is matched with its own error allowance"),
         ("c08", "r5_nfallback", (), ALL, "N bases in the read are not counted as matches by the index"),
         ("c06", "r5_pickle", (), _has("Aligner", "Comparer"), "a pickled aligner (spawned worker) must search with the same parameters"),
     ],
     "C02": [
+        ("c18", "r4_precedence", (), ALL, "search parameters of one specification do not leak into the adapters built after it"),
+        ("c01", "r8_tables", (), ALL, "the IUPAC / ACGT encodings decide which characters match"),
         ("c07", "r1_coverage", (), ALL, "the prefilter must not reject a read that contains an admissible occurrence"),
         ("c07", "r2_inputs", (), ALL, "prefilter and aligner see the same string and flags"),
         ("c07", "r3_windows", (), ALL, "the prefilter's windows cover every admissible occurrence"),
@@ -45,7 +48,7 @@ MIRRORS = {
     "C04": [
         ("c06", "r4_merges", (), ALL, "per-worker statistics are merged additively, field by field"),
         ("c09", "r6_trimmed", (), ALL, "a read counts as 'with adapter' once, iff a match was applied"),
-        ("builder_rules", "c10", ("quick",), lambda o: o.rule == "C10.R2", "every option that is given builds its modifier (numeric presence)"),
+        ("builder_rules", "c10", ("quick",), lambda o: o.rule == "C10.R2" or "length of 0" in o.construct or "returns a record" in o.construct, "every option that is given builds its modifier (numeric presence); no modifier is built that swallows reads"),
     ],
     "C05": [
         ("c15", "r1_writers", (), ALL, "paired demultiplexing opens a writer pair per adapter name"),
@@ -73,6 +76,7 @@ MIRRORS = {
         ("c05", "wrapper_routing", ("C15.X",), ALL, "the R2 modifier records its matches on the R2 info (which selects the file)"),
     ],
     "C16": [
+        ("c17", "r1_writer", (), _has("InfoFileWriter"), "the info file is written in the orientation that was kept, applied once per read"),
         ("c06", "r4_merges", (), _has("Statistics.__iadd__"), "the reverse-complemented count of every worker is added"),
     ],
     "C17": [
